@@ -505,12 +505,12 @@ def rule_r6_extent(ctx: Ctx) -> None:
 
 
 def run(ctx: Ctx) -> None:
-    rule_r1_prefix(ctx)
-    rule_r2_tag(ctx)
-    rule_r3_header(ctx)
-    rule_r4_alignment(ctx)
-    rule_r5_terms(ctx)
-    rule_r6_extent(ctx)
+    ctx.attempt(rule_r1_prefix, ctx)
+    ctx.attempt(rule_r2_tag, ctx)
+    ctx.attempt(rule_r3_header, ctx)
+    ctx.attempt(rule_r4_alignment, ctx)
+    ctx.attempt(rule_r5_terms, ctx)
+    ctx.attempt(rule_r6_extent, ctx)
     ctx.assume("reachable alignments are {1, 8} (R4); capacities < 2**64")
     ctx.undecided("that every element of every set is a multiple of the alignment as a *set* fact, and the exactness of the bit-length-set arithmetic itself (C01)")
     ctx.analysed["modules"] = ["_serializable/_primitive", "_void", "_array", "_composite"]
